@@ -584,7 +584,7 @@ def _run_index(mod, reg, uni, fnode, loop, var, direction, ints, extra_assume, t
                         if not isinstance(v1, VInt):
                             # the index now holds the result of something the executor does not model (a helper call, an
                             # unknown attribute): not a refutation -- the obligation is undecided and the replayer looks for a hang
-                            vcs.append((o.st.pc, None, "index variable is assigned from a value the executor does not follow"))
+                            vcs.append((o.st.pc, None, "index variable is assigned from a value the executor does not follow", None))
                             continue
                         t1 = ops.int_term(v1)
                         goal = t1 < v0 if direction in ("dec", "dec-to-zero") else t1 > v0
